@@ -49,6 +49,7 @@ RULE = ("part rt: Hypothesis st.recursive over bool, int (signed 64-bit range, e
         "containers > 16384, unsupported types) bare or wrapped in list/tuple/dict/set/object contexts must make "
         "encode raise; every such case is non-trivial, distinct by (kind, atom, context).  The size-limit boundary "
         "cases (exactly 1 MiB / 16384 must round trip, one more must be refused) are enumerated.")
+RULE += (" " + 'The class grammar includes classes deriving from another user class (own type id, own declared fields), so that a base class is encoded before / after its derived class within one process.')
 ASSUMPTIONS = [
     "supported domain as the property states it: signed 64-bit ints; dict keys and set members are scalars or enum "
     "members that stay hashable after the documented tuple->list rule, one type per container, float keys "
